@@ -269,9 +269,9 @@ func (ps *cparser) primary() CExpr {
 				}
 				q.Vars = append(q.Vars, v.s)
 				ty := ""
-				// optional type: forall k int, j int :: body
-				if ps.peek().kind == "id" {
-					ty = ps.next().s
+				// optional type: forall k int, a net.IP, b []byte :: body
+				for !(ps.isOp(",") || ps.isOp("::")) && ps.peek().kind != "eof" {
+					ty += ps.next().s
 				}
 				q.Types = append(q.Types, ty)
 				if ps.isOp(",") {
